@@ -135,6 +135,9 @@ def schemas():
                            Q('Existential', x, P(H2, x, ca))),
         'ord-nec-poss': ([L(a), M(b), L(O('MaterialConditional', a, c)), M(Neg(c))], M(O('Conjunction', a, b))),
         'ord-nec-nec': ([L(L(a)), M(M(b))], M(M(O('Conjunction', a, b)))),
+        'ord-modal-exist': ([M(Q('Existential', x, Fx)), L(Q('Universal', x, Neg(Fx))), Fa], b),
+        'ord-modal-exist2': ([Fa, M(Q('Existential', x, O('Conjunction', Fx, Gx))), L(Q('Universal', x, O('MaterialConditional', Fx, Neg(Gx))))], b),
+        'ord-modal-univ': ([L(Q('Universal', x, Fx)), M(Neg(Fa))], b),
         'ord-mono-modal': ([L(a), M(b), M(c)], O('Conjunction', M(O('Conjunction', a, b)), M(O('Conjunction', a, c)))),
     }
     return {k: {'prems': v[0], 'conc': v[1]} for k, v in out.items()}
